@@ -282,6 +282,33 @@ def special_files(rng: random.Random) -> List[Tuple[str, bytes]]:
     out.append(("ud_dangling", ase.serialize(ase.Sprite(width=1, height=1, frames=[ase.Frame(chunks=[ase.UserDataChunk(text="x")])]))))
     out.append(("ud_tags", ase.serialize(ase.Sprite(width=1, height=1, frames=[ase.Frame(chunks=[
         ase.TagsChunk(tags=[ase.Tag(name="t")]), ase.UserDataChunk(text="a"), ase.UserDataChunk(text="b")])]))))
+    # a tags chunk (with 0 / 1 tags) followed by more user-data chunks than a 16-bit counter can count
+    for nt in (0, 1):
+        fr = ase.Frame(chunks=[ase.TagsChunk(tags=[ase.Tag(name="t")] * nt)] + [ase.UserDataChunk(flags=0) for _ in range(65600)])
+        out.append(("ud_tags_65600_%d" % nt, ase.serialize(ase.Sprite(width=1, height=1, frames=[fr]))))
+    # user data whose flags announce the Aseprite 1.3 properties block (bit 4), with deeply nested vectors / maps in it
+    def nested_props(depth, kind):
+        # properties block: DWORD size, DWORD number of maps; map: DWORD key, DWORD count; property: STRING name, WORD type, value;
+        # type 0x0011 vector: DWORD count, WORD element type (0 = mixed: each element WORD type + value); 0x0012 map: DWORD count, properties
+        inner = b""
+        for _ in range(depth):
+            inner = (ase.u32(1) + ase.u16(0) + ase.u16(0x0011) + inner) if kind == "vec" else (ase.u32(1) + ase.ase_string("k") + ase.u16(0x0012) + inner)
+        head_t = 0x0011 if kind == "vec" else 0x0012
+        body = ase.u32(1) + ase.u32(0) + ase.u32(1) + ase.ase_string("p") + ase.u16(head_t) + inner
+        return ase.u32(len(body) + 4) + body
+    for depth, kind in ((3, "vec"), (100000, "vec"), (100000, "map")):
+        ud = ase.RawChunk(ase.CT_USER_DATA, ase.u32(1 | 4) + ase.ase_string("x") + nested_props(depth, kind))
+        out.append(("ud_props_%s_%d" % (kind, depth), ase.serialize(ase.Sprite(width=1, height=1, frames=[ase.Frame(chunks=[ase.LayerChunk(), ud])]))))
+    # tilemap cels with other than 32 bits per tile whose payload has exactly the size that width would need (0, 8, 16, 24 bits)
+    for bits in (0, 8, 16, 24):
+        out.append(("tm_bits_%d" % bits, ts_sprite(ase.TilesetChunk(id=0, tile_count=2, tile_w=2, tile_h=2, pixels=b"\7" * 32),
+                                                  ase.CelChunk(layer=0, ctype_cel=3, w=2, h=2, tm_bits=bits, zraw=ase.deflate(b"\0" * (4 * bits // 8))))))
+    # an empty tileset whose tile size is 0 x 0, used by a tilemap layer with an empty (0 x 0) tilemap cel; also count 0 with a real size
+    for tw, th in ((0, 0), (0, 4), (4, 4)):
+        for cw, chh in ((0, 0), (1, 1)):
+            out.append(("empty_tileset_%dx%d_cel_%dx%d" % (tw, th, cw, chh),
+                        ts_sprite(ase.TilesetChunk(id=0, tile_count=0, tile_w=tw, tile_h=th, pixels=b""),
+                                  ase.CelChunk(layer=0, ctype_cel=3, w=cw, h=chh, zraw=ase.deflate(b"\0" * (4 * cw * chh))))))
     return out
 
 
